@@ -436,6 +436,10 @@ def run(cx, rep):
             for x in walk(F.hir[g]["body"]):
                 if x["k"] == "Path" and x.get("res") == "def" and (x.get("defkind") or "").startswith("Const") and x.get("def") in F.hir:
                     lits_g |= {y.get("v") for y in walk(F.hir[x["def"]]["body"]) if y["k"] == "Lit"}
+            # (a table may also be ONE string constant of punctuation characters: `SPECIAL.contains(c)`, seed C01-q)
+            for v_ in list(lits_g):
+                if isinstance(v_, str) and len(v_) >= 3 and not any(ch_.isalnum() or ch_.isspace() for ch_ in v_):
+                    lits_g |= set(v_)
             if len({c for c in "()[]{}.*+?|^$" if c in lits_g}) >= 3:
                 er.append(g)
     if len(er) != 1:
@@ -503,6 +507,20 @@ def run(cx, rep):
                     cs_ = [p_.get("lit") for p_ in ps_ if p_.get("lit") is not None]
                     if cs_ and len(cs_) == len(ps_):
                         lits.append((cs_, a))
+                    # a guard arm `c if TABLE.contains(c)` whose table is one string of characters (a constant or a
+                    # literal): the arm stands for every character of the table (seed C01-q)
+                    gd = a.get("guard")
+                    if gd is not None and gd["k"] == "MethodCall" and gd["method"] == "contains" and a["pat"]["k"] == "P.Binding":
+                        rv = gd["recv"]
+                        while rv.get("k") in ("AddrOf", "DropTemps"):
+                            rv = rv["e"]
+                        tv = None
+                        if rv["k"] == "Lit" and rv.get("lit") == "str":
+                            tv = rv.get("v")
+                        elif rv["k"] == "Path" and rv.get("res") == "def" and rv.get("def") in F.hir:
+                            tv = next((y.get("v") for y in walk(F.hir[rv["def"]]["body"]) if y["k"] == "Lit" and y.get("lit") == "str"), None)
+                        if tv:
+                            lits.append((list(tv), a))
                 pushes_bs = any(x["k"] == "MethodCall" and x["method"] in ("push", "push_str") and x["args"] and x["args"][0]["k"] == "Lit" and x["args"][0].get("v") in ("\\",) for x in walk(t["body"]))
                 if lits and pushes_bs:
                     single = sorted({c_ for cs_, _ in lits for c_ in cs_})
